@@ -1,3 +1,4 @@
+import WS.Lemmas.Agree
 import WS.Lemmas.HttpLogic
 import WS.Lemmas.HdrLogic
 import WS.Gen.Tables
@@ -76,6 +77,39 @@ theorem toggle_safe_off (s : W) (hi : IdleZ s) (t : Nat) (ht : t = 1 ∨ t = 2) 
     (writeMessage s1 t data).1 = none ∧
     wireMessages (writeMessage s1 t data).2 = wireMessages s ++ [⟨t, false, data⟩] := by
   first | exact CompressedWrite.toggled_off_message_plain .. | (apply CompressedWrite.toggled_off_message_plain <;> assumption)
+
+open WS.Agree in
+/-- both_or_neither (the property's first sentence): whenever the Dialer's request is upgraded, the
+    server side compresses exactly when both sides enabled compression, and the Dialer accepts the 101
+    with the same setting — for every pair of EnableCompression values, subprotocol lists, URLs and
+    keys. net/http is the carrier (environment): `reqOf` / `replyOf` say header fields arrive under
+    canonical names; `reply_is_what_the_101_says` ties `replyOf` to the bytes actually written. -/
+theorem both_or_neither (d : DCfg) (u : UCfg) (url : Url) (key host : Bytes) (h : Client.Hdr)
+    (oh : Option Bytes) (hj : Hijack) (bytes : Bytes) (a : Accepted)
+    (hb : buildRequest d url key [] = .ok (host, h))
+    (hu : upgrade u (reqOf host h) none oh hj = .ok (bytes, a)) :
+    a.compress = (d.enableCompression && u.enableCompression) ∧
+    ∃ dl, checkReply key (replyOf a (Spec.acceptKey Gen.keyGUID key)) = .ok dl ∧ dl.compress = a.compress := by
+  first | exact Agree.both_or_neither .. | (apply Agree.both_or_neither <;> assumption)
+
+open WS.Agree in
+/-- … and the handshake does succeed (ws/wss URL without userinfo, valid key, hijack possible) -/
+theorem handshake_succeeds (d : DCfg) (u : UCfg) (url : Url) (key : Bytes) (oh : Option Bytes) (hj : Hijack)
+    (hs : url.scheme = strBytes "ws" ∨ url.scheme = strBytes "wss") (hnu : url.hasUser = false)
+    (hk : isValidChallengeKey key = true) (hjok : hj.ok = true) (hco : u.checkOrigin = none ∨ u.checkOrigin = some true) :
+    ∃ host h bytes a, buildRequest d url key [] = .ok (host, h) ∧ upgrade u (reqOf host h) none oh hj = .ok (bytes, a) := by
+  first | exact Agree.handshake_succeeds .. | (apply Agree.handshake_succeeds <;> assumption)
+
+open WS.Agree in
+theorem reply_is_what_the_101_says (u : UCfg) (r : Req) (oh : Option Bytes) (hj : Hijack) (bytes : Bytes) (a : Accepted)
+    (hu : upgrade u r none oh hj = .ok (bytes, a)) :
+    ∃ names : List Bytes,
+      names.map canonicalKey = (replyOf a (Spec.acceptKey Gen.keyGUID (r.get "Sec-Websocket-Key"))).hdr.map (·.1) ∧
+      a.lines = strBytes "HTTP/1.1 101 Switching Protocols" ::
+        (names.zip (replyOf a (Spec.acceptKey Gen.keyGUID (r.get "Sec-Websocket-Key"))).hdr).map
+          (fun p => p.1 ++ strBytes ": " ++ p.2.2.headD []) := by
+  first | exact Agree.replyOf_renders .. | (apply Agree.replyOf_renders <;> assumption)
+
 
 /-! ### non-vacuity -/
 section NonVacuity
